@@ -25,4 +25,9 @@ CHECKS.update({
             "One genuine defect (1-based count into 0-based strategies) recorded as known findings per strategy shape; other shapes/clauses still alarm.", GRID_TECH),
 })
 
+CHECKS.update({
+    "C02": ("6/C02", "Multi-accept graphs (overlapping exact types, subclass event, targeted/broadcast ctx.send_event, returned events, external sends, a waiting step that also accepts the awaited type) x all schedules within a deviation bound; per add-event tick the runner-state delta is compared with a dict router; body entries and UnhandledEvent reports are counted after a fan-in of every delivery.",
+            "Deviation bound 2-3 in the quick tier (stated per program in the evidence). Fix 068b360 repaired the targeted-waiter defect this check found.", ENGINE_TECH),
+})
+
 NOT_APPLICABLE = {}
